@@ -1,5 +1,5 @@
 """C20 -- option combinations are rejected cleanly or run without UB; statistics are well defined (see props/driver.py, C17.split)."""
-import driver, C17, C18
+import driver, C17, C18, parser as optparser
 
 EXPLANATION = ("Decided parts of C20: (driver, Layer T) every source assert and vector subscript of solve() holds, no local is read before it is "
                "written, throw statements are unreachable for validated option values, the exactError getters call back() only on a non-empty "
@@ -7,14 +7,19 @@ EXPLANATION = ("Decided parts of C20: (driver, Layer T) every source assert and 
                "asserts (>= 2 circles, >= 3 radial nodes, >= 3 circles when nr > 5) for every nr >= 3 (loop contract, unbounded) -- known finding F13 "
                "for nr == 2 is reported under C17; (levels) chooseNumberOfLevels rejects exactly the grids without a two-level hierarchy "
                "(C18 job). Memory safety of the numerical kernels is part of the per-kernel checks (bounds / source-assert obligations of "
-               "C03-C08, C14). NOT decided: command-line parser and enum validation (cmdline.h / parser.cpp: C++ library code outside the "
-               "extractor), setup() rejection of the take strategy without caches, anisotropic grid division, finiteness of the solution.")
+               "C03-C08, C14). (options, props/parser.py) the verbatim bodies of parseGrid / parseGeometry / parseMultigrid / "
+               "parseGeneral for EVERY value of every option: each throws exactly when an enum option is not an enumerator, otherwise every enum member "
+               "holds a valid enumerator and every other member the option value, a negative tolerance is disabled and a positive one stored, selectTestCase is "
+               "called once after the options are stored; the prologue of setup() rejects exactly the take strategy without both caches before "
+               "anything is built; (grid generation) subscripts of the uniform / anisotropic-window / bisection / coarsening code (C18 jobs). "
+               "NOT decided: the cmdline.h library (registration, defaults, oneof ranges), the rest of setup(), the std::set part of the anisotropic "
+               "division, finiteness of the solution.")
 
 
 def run(tier, seed, work):
     import vlib
     rep = vlib.Report("C20", tier, seed)
-    jobs = driver.build_jobs(which=("converged", "getters", "solve")) + [C17.split_job(nt) for nt in (4, 8, 12)] + C18.build_jobs(tier, seed)
+    jobs = driver.build_jobs(which=("converged", "getters", "solve")) + [C17.split_job(nt) for nt in (4, 8, 12)] + C18.build_jobs(tier, seed) + optparser.build_jobs(tier, seed)
     vlib.run_jobs(jobs, work)
     rep.absorb(jobs, keep=driver.absorb_filter("C20"))
     rep.extraction = {"rules_fired": jobs[0].rules.summary(), "body_sha256_16": {k: v for j in jobs for k, v in j.hashes.items()}, "dropped": driver.DROPPED}
